@@ -100,3 +100,40 @@ Definition file_ext (a c : dfile) : Prop :=
   sub_list service_ext (fl_svcs a) (fl_svcs c).
 
 Definition files_ext (D D' : list dfile) : Prop := sub_list file_ext D D'.
+
+(* ------------------------------------------------------------------ source files: extended by appends *)
+(* What any sequence of C13 edits does to a source file, as a relation: properties appended
+   to objects / oneofs / requests / responses / topic messages, options appended to (non-empty)
+   enums, declarations appended to the file. *)
+Definition method_ext (m m' : method) : Prop :=
+  m_name m' = m_name m /\ m_verb m' = m_verb m /\ m_path m' = m_path m /\
+  (exists extra, m_request m' = papp (m_request m) extra) /\
+  match m_response m, m_response m' with
+  | None, None => True
+  | Some r, Some r' => exists extra, r' = papp r extra
+  | _, _ => False
+  end.
+
+Definition tmsg_ext (t t' : tmsg) : Prop :=
+  tm_name t' = tm_name t /\ exists extra, tm_fields t' = papp (tm_fields t) extra.
+
+Inductive topic_ext : topic -> topic -> Prop :=
+| te_publish : forall n ms ms', Forall2 tmsg_ext ms ms' -> topic_ext (TPublish n ms) (TPublish n ms')
+| te_reqres : forall n rq rq' rp rp', Forall2 tmsg_ext rq rq' -> Forall2 tmsg_ext rp rp' ->
+    topic_ext (TReqRes n rq rp) (TReqRes n rq' rp')
+| te_upsert : forall n en m m', tmsg_ext m m' -> topic_ext (TUpsert n en m) (TUpsert n en m')
+| te_event : forall n en m m', tmsg_ext m m' -> topic_ext (TEvent n en m) (TEvent n en m').
+
+Inductive element_ext : element -> element -> Prop :=
+| ee_object : forall nm ps extra subs, element_ext (EObject nm ps subs) (EObject nm (papp ps extra) subs)
+| ee_oneof : forall nm ps extra subs, element_ext (EOneof nm ps subs) (EOneof nm (papp ps extra) subs)
+| ee_enum_same : forall en, element_ext (EEnum en) (EEnum en)
+| ee_enum : forall nm pfx opts extra, opts <> [] ->
+    element_ext (EEnum (mkEnum nm pfx opts)) (EEnum (mkEnum nm pfx (opts ++ extra)))
+| ee_service : forall nm base ms ms', Forall2 method_ext ms ms' ->
+    element_ext (EService (mkService nm base ms)) (EService (mkService nm base ms'))
+| ee_topic : forall t t', topic_ext t t' -> element_ext (ETopic t) (ETopic t').
+
+Definition file_src_ext (f f' : jfile) : Prop :=
+  jf_dir f' = jf_dir f /\ jf_base f' = jf_base f /\ jf_imports f' = jf_imports f /\
+  exists els1 extra, Forall2 element_ext (jf_elements f) els1 /\ jf_elements f' = els1 ++ extra.
